@@ -17,7 +17,7 @@ RULE = ('store events on objects created with scale s and bias b (constructor, c
         'astype(float)) must return s*code*LSB+b exactly, upper/lower/precision must be the unscaled limits mapped through the affine map (precision '
         'through s only), and inferred sizes must be the sizes inferred for (v-b)/s. Only cases in which v, v-b and (v-b)/s are exact doubles. Key = (sign of '
         'scale, scale=1?, bias=0?, int/float parameters, rounding, overflow, outcome); non-trivial = (scale != 1 or bias != 0) and outcome != exact.')
-DECIDING_OPS = ['__init__', '__call__', 'get_val', '__setitem__', '__getitem__']
+DECIDING_OPS = ['__init__', '__call__', 'get_val', '__setitem__', '__getitem__', 'resize']
 ANCHORS = ['objects.Fxp._format_inupt_val', 'objects.Fxp.astype', 'objects.Fxp.resize']
 SHARDS = {'quick': 16, 'thorough': 16}
 _FL = ('overflow', 'underflow', 'inaccuracy')
@@ -185,11 +185,48 @@ def make_judges(ctx):
         ctx.floor_hit(('read', ev.op))
         if index is not None or item is not None:
             ctx.floor_hit(('read', 'element'))
-    return [store_judge, read_judge]
+    def resize_judge(ev):
+        """resize of a scaled object re-stores the same (scaled) value: the unscaled value code*LSB is re-quantized"""
+        if ev.kind != 'method' or ev.op != 'resize':
+            return
+        pre, post = (ev.pre[0], ev.post[0]) if ev.pre and ev.post else (None, None)
+        if pre is None or post is None or (pre.scale == 1 and pre.bias == 0) or pre.is_complex:
+            return
+        d = dict(zip(('signed', 'n_word', 'n_frac', 'n_int', 'restore_val', 'dtype'), ev.args))
+        d.update(ev.kwargs)
+        if d.get('restore_val', True) is not True:
+            return
+        if not (1 <= pre.n_word <= 16 and 1 <= post.n_word <= 20 and -8 <= pre.n_frac <= pre.n_word + 8 and -8 <= post.n_frac <= post.n_word + 8):
+            ctx.skip('resize:outside domain')
+            return
+        ab = affine_of(pre)
+        if ab is None or ab[0] == 0:
+            return
+        sc, bi = ab
+        lsb = R.lsb(pre.n_frac)
+        us = [k * lsb for k in pre.codes]
+        if not all(is_double(u) and is_double(sc * u) and is_double(sc * u + bi) and is_double((sc * u + bi) - bi) for u in us):
+            ctx.skip('resize:an intermediate is not an exact double')
+            return
+        if ev.exc is not None:
+            ctx.violation('raises', 'resize of a scaled object raised %s: %s' % (type(ev.exc).__name__, str(ev.exc)[:100]), ev, key='scaled.resize_raises')
+            return
+        exp = [R.quantize_code(u, post.signed, post.n_word, post.n_frac, post.rounding, post.overflow) for u in us]
+        if post.codes != exp:
+            ctx.violation('resize', 'resize of scaled %s (scale=%r, bias=%r) to %s: codes %s, the unscaled values %s quantize to %s' % (
+                R.dtype_fxp(*pre.fmt()), pre.scale, pre.bias, R.dtype_fxp(*post.fmt()), post.codes[:3], [str(u) for u in us[:3]], exp[:3]), ev)
+        if (post.scale, post.bias) != (pre.scale, pre.bias):
+            ctx.violation('resize', 'resize changed scale/bias', ev)
+        for tag, detail in U.u1_problems(post):
+            if tag in ('upper', 'lower', 'precision', 'n_int', 'dtype'):
+                ctx.violation('limits', 'after resize: ' + detail, ev)
+        ctx.judged(('resize', sc > 0, sc == 1, bi == 0, post.n_frac - pre.n_frac), True, None, elements=len(us))
+        ctx.floor_hit(('resize',))
+    return [store_judge, read_judge, resize_judge]
 
 
 def floors(tier):
-    return [('route', r) for r in ('constructor', 'call', 'setitem', 'set_val')] + [('read', 'get_val'), ('read', 'astype'), ('read', '__call__'), ('read', 'element'), ('inferred',)] + \
+    return [('route', r) for r in ('constructor', 'call', 'setitem', 'set_val')] + [('read', 'get_val'), ('read', 'astype'), ('read', '__call__'), ('read', 'element'), ('inferred',), ('resize',), ('raw-then-read',)] + \
            [('params', True, False, True), ('params', False, False, True), ('params', True, True, False), ('params', True, False, False), ('params', False, False, False)]
 
 
@@ -247,6 +284,26 @@ def run_case(case, ctx):
             _try(lambda: x.get_val())
         _try(lambda: x.set_val(inp(vs[-1])))
         _try(lambda: x())
+    if x is not None:
+        # a raw code written into the scaled object: reads and limits keep the affine map
+        lo_, hi_ = R.code_range(s, w)
+        kraw = rng.randint(lo_, hi_)
+        _try(lambda: x.set_val(kraw, raw=True))
+        _try(lambda: x.get_val())
+        _try(lambda: x.astype(float))
+        ctx.floor_hit(('raw-then-read',))
+        y2 = _try(lambda: Fxp(kraw, s, w, nf, raw=True, **kw))
+        if y2 is not None:
+            _try(lambda: y2.get_val())
+        # resizes of a scaled object (value preserved / re-quantized, limits re-mapped)
+        xr = _try(lambda: Fxp(inp(vs[0]), s, w, nf, **kw))
+        if xr is not None:
+            _try(lambda: xr.resize(s, min(20, w + 2), max(-8, nf + rng.choice([-2, -1, 1, 2]))))
+            _try(lambda: xr.get_val())
+            _try(lambda: xr.resize(n_frac=max(-8, xr.n_frac - 1)))
+            _try(lambda: xr.get_val())
+            _try(lambda: xr.resize(dtype=R.dtype_fxp(s, max(2, min(20, w + 1)), max(-8, nf))))
+            _try(lambda: xr.astype(float))
     arr = [float(v) for v in (vs * 3)[:3]]
     a = _try(lambda: Fxp(np.array(arr), s, w, nf, **kw))
     if a is not None:
@@ -296,3 +353,11 @@ def run_case(case, ctx):
         z = _try(lambda: Fxp(float(dy[0]), signed=sg, scale=scale, bias=bias) if sg is not None else Fxp(float(dy[0]), scale=scale, bias=bias))
         if z is not None:
             _try(lambda: z.get_val())
+        # integer-typed inputs (python int, numpy integer, integer array, list) whose transformed value is not an integer
+        iv = [v for v in dy if v.denominator == 1]
+        if iv:
+            for val in (int(iv[0]), np.int64(int(iv[0])), np.array([int(v) for v in iv[:3]]), [int(v) for v in iv[:2]]):
+                z = _try(lambda: Fxp(val, scale=scale, bias=bias))
+                if z is not None:
+                    _try(lambda: z.get_val())
+            _try(lambda: Fxp(int(iv[0]), n_word=rng.randint(8, 16), scale=scale, bias=bias))
